@@ -63,7 +63,7 @@ class Contract:
                  raises=None, modifies=(), effects=(), loops=None, locals=None, inline=False, funcs=None,
                  ghost=None, mode="prove", unroll=None, comps=None, name=None, setup=(), max_paths=None,
                  frame=None, lock=None, replay=None, timeout_ms=None, axioms=(), post_setup=(), pure_result=None, asserts=None, nonlinear=False,
-                 fs_inv=(), fs_policy=(), fs_opts=None):
+                 fs_inv=(), fs_policy=(), fs_opts=None, call_pre=None):
         self.key = key
         self.prop = prop if isinstance(prop, (list, tuple)) else [prop]
         self.short = name or key.split(":", 1)[1]
@@ -98,6 +98,9 @@ class Contract:
         self.fs_inv = _pairs(fs_inv)
         self.fs_policy = _pairs(fs_policy)
         self.fs_opts = dict(fs_opts or {})
+        # {callee key: [(name, spec)]}: caller-side obligations proved in this function's own environment right
+        # before a modular call it makes to that callee (what the caller must have established by then)
+        self.call_pre = {k: _pairs(v) for k, v in (call_pre or {}).items()}
         self.pure_result = pure_result
         if pure_result is not None:
             self.ensures.append(("pure-result", "result == (%s)" % pure_result))
